@@ -1733,7 +1733,7 @@ pub fn run() {
         staged_case("staged-completion", fam, i, r, max_t.min(8), max_sp)
     });
 
-    let (nsh, shreps) = t.pick((500usize, 6usize), (30_000usize, 12usize));
+    let (nsh, shreps) = t.pick((500usize, 6usize), (6_000usize, 8usize));
     timed(&mut fam_wall, "sherlock-nosimp");
     par_cases("sherlock-nosimp", nsh, move |r, i| sherlock_case("sherlock-nosimp", i, r, shreps));
     process_events(collect_events(None), "sherlock-nosimp(leftover)", 0);
